@@ -34,8 +34,14 @@ def optBytes : Option Bytes → String
 def render (ja4 ja4r ja4o ja4ro ver : String) (sni alpn : Option Bytes) (c e s g : List Nat) : String :=
   s!"J={ja4} R={ja4r} O={ja4o} RO={ja4ro} v={ver} sni={optBytes sni} alpn={optBytes alpn} c={natList c} e={natList e} s={natList s} g={natList g}"
 
+/-- the harness prints fingerprints with everything outside `!`..`~` (and `\\`) escaped as `\\u{hex}` -/
+def esc (l : List Char) : String :=
+  String.join (l.map (fun c =>
+    if '!' ≤ c ∧ c ≤ '~' ∧ c ≠ '\\' then c.toString
+    else "\\u{" ++ String.ofList (Nat.toDigits 16 c.toNat) ++ "}"))
+
 def renderReport (r : Report) : String :=
-  render (String.ofList r.ja4) (String.ofList r.ja4r) (String.ofList r.ja4o) (String.ofList r.ja4ro) r.version
+  render (esc r.ja4) (esc r.ja4r) (esc r.ja4o) (esc r.ja4ro) r.version
     r.sni r.alpn r.ciphers r.extensions r.sigAlgs r.groups
 
 def modelOut (b : Bytes) : String × Option Signature :=
